@@ -399,6 +399,12 @@ func (x *c01) hostile() {
 			"{{ 1 | plus: "+s+" }}", "{{ 5 | round: "+s+" }}", "{% for i in a limit: "+s+" %}{{ i }}{% endfor %}", "{% for i in a offset: "+s+" %}{{ i }}{% endfor %}",
 			"{% tablerow i in a cols: "+s+" %}{{ i }}{% endtablerow %}", "{% if "+s+" > 1 %}{% endif %}", "{% assign v = "+s+" %}{{ v | minus: 1 }}")
 	}
+	// ranges far too large to materialise: array filters must refuse them (an error), never panic; lazy loops with a limit are fine
+	for _, s := range []string{"{{ (1..9223372036854775807) | first }}", "{{ (0..4294967296) | join: ',' }}", "{{ (-9223372036854775807..9223372036854775807) | size }}",
+		"{% for i in (1..9223372036854775807) limit: 2 %}{{ i }}{% endfor %}", "{{ (1..9223372036854775807) | reverse | first }}", "{% assign r = (5..9007199254740993) %}{{ r | last }}{{ r | sort | first }}",
+		"{% tablerow i in (1..4611686018427387904) limit: 1 %}{{ i }}{% endtablerow %}", "{{ (1..4294967296) | concat: a | size }}", "{{ (1..9223372036854775807) | map: 'x' }}{{ (1..9223372036854775807) | uniq }}"} {
+		inject = append(inject, s)
+	}
 	env := hostileEnv
 	// frozen regression inputs: every source that ever produced a genuine violation (or that the development-time
 	// fuzzer found interesting) stays in /verif/corpus/C01 and is replayed first
@@ -456,7 +462,7 @@ func (x *c01) hostile() {
 				}
 			}
 		}
-		if unboundedBySyntax(src) {
+		if kind != "inject" && unboundedBySyntax(src) {
 			c.Skip("source can spell an unbounded range")
 			continue
 		}
